@@ -29,11 +29,14 @@ pub struct Opts {
     pub late_timeout_s: u64,
     /// concurrent solver processes for the flip queries of one path
     pub threads: usize,
+    /// cap for flipping a decision that obligations depend on (witnesses of feasible sides are found in seconds;
+    /// proving a side infeasible can be as hard as any obligation and is given up earlier in the quick tier)
+    pub flip_timeout_s: u64,
 }
 
 impl Default for Opts {
     fn default() -> Self {
-        Opts { seed: 0, timeout_s: 30, max_paths: 20000, simplify: true, verbose: false, budget_s: 1.0e9, strict_unexplored: false, late_timeout_s: 2, threads: 4 }
+        Opts { seed: 0, timeout_s: 30, max_paths: 20000, simplify: true, verbose: false, budget_s: 1.0e9, strict_unexplored: false, late_timeout_s: 2, threads: 4, flip_timeout_s: 30 }
     }
 }
 
@@ -443,13 +446,13 @@ impl Explorer {
                     let atom = Bx::Cmp(d.cmp, d.a, d.b);
                     let goal = if d.side { atom.not() } else { atom };
                     let b = goal.bound(&ctx).min(i);
-                    todo.push((build_query(&ctx, &ctx.trace[..b], &goal), if late { self.opts.late_timeout_s } else { self.opts.timeout_s }));
+                    todo.push((build_query(&ctx, &ctx.trace[..b], &goal), if late { self.opts.late_timeout_s } else { self.opts.flip_timeout_s }));
                 }
                 self.solver.prefetch(todo, self.opts.threads);
             }
             for i in bound..ctx.trace.len() {
                 let late = i >= relevant;
-                self.solver.timeout_s = if late { self.opts.late_timeout_s } else { self.opts.timeout_s };
+                self.solver.timeout_s = if late { self.opts.late_timeout_s } else { self.opts.flip_timeout_s };
                 if let Some(w) = pool_hit.remove(&i) {
                     stats.flips_pool += 1;
                     work.push((w, i + 1));
